@@ -44,6 +44,13 @@ class Arr(Stub):
         raise AttributeError(n)
 
 
+def _tok(x):
+    """a token that went through np.array(token, copy=True) / np.asarray(token) is still that token (an explicit copy does not change content)"""
+    if isinstance(x, np.ndarray) and x.dtype == object and x.shape == ():
+        return x.item()
+    return x
+
+
 def slice_obligations(ck):
     from nuspacesim.utils import interp as IM
 
@@ -208,7 +215,7 @@ def hdf5_pairing(ck):
             o.note = str([(p.kind, str(p.exc)) for p in ps + ps2])[:300]
             ck._undecided(o, lambda: native_first(ck))
             continue
-        ok = ps2[0].kind == "return" and made.get("data") is g.data and made.get("names") == names and len(made.get("axes", [])) == len(names) and all(a is b for a, b in zip(made["axes"], g.axes))
+        ok = ps2[0].kind == "return" and _tok(made.get("data")) is g.data and made.get("names") == names and len(made.get("axes", [])) == len(names) and all(_tok(a) is b for a, b in zip(made["axes"], g.axes))
         ck.direct("%s/pairing%s" % (qn, tag), ok, "post", "symbolic execution of writer then reader on recording h5py stubs", note=str([(p.kind, str(p.exc)[:80]) for p in ps2]) + " " + str(made)[:200],
                   clause="every dataset / attribute the HDF5 reader reads is written by the writer under the same name: data, axis i and its name come back for any axis names and dimensionality",
                   replay_out=None if ok else native_first(ck))
@@ -291,7 +298,7 @@ def fits_pairing(ck):
             o.note = str([(p.kind, str(p.exc)) for p in ps + ps2])[:300]
             ck._undecided(o, lambda: native_first(ck))
             continue
-        ok = ps2[0].kind == "return" and made.get("data") is g.data and made.get("names") == names and len(made.get("axes", [])) == len(names) and all(a is b for a, b in zip(made["axes"], g.axes))
+        ok = ps2[0].kind == "return" and _tok(made.get("data")) is g.data and made.get("names") == names and len(made.get("axes", [])) == len(names) and all(_tok(a) is b for a, b in zip(made["axes"], g.axes))
         ck.direct("%s/pairing%s" % (qn, tag), ok, "post", "symbolic execution of writer then reader on recording astropy.io.fits stubs", note=str([(p.kind, str(p.exc)[:80]) for p in ps2]) + " " + str(made)[:200],
                   clause="FITS: HDU i+1 holds axis i and the primary header names it AXISi; the reader gets data, axes and names back for any axis names (also names differing only in case, or equal to `primary`)",
                   replay_out=None if ok else native_first(ck))
